@@ -644,7 +644,19 @@ fn configure_build(
     }
 
     let mut module_build_dep_files: IndexMap<&String, IndexSet<Utf8PathBuf>> = IndexMap::new();
-    let mut download_dirs = IndexMap::new();
+    // The download directories of all modules of this build, collected up front: a module
+    // whose sources live inside one of them gets its sources declared as created by that
+    // download whether or not it is visited after the downloading module.
+    // TODO: catch download directory clash here
+    let download_dirs: IndexMap<_, _> = modules_in_build_order
+        .iter()
+        .filter_map(|(module, _, _)| {
+            match (module.srcdir.as_ref(), module.download.as_ref()) {
+                (Some(srcdir), Some(download)) => Some((srcdir, download.tagfile(srcdir))),
+                _ => None,
+            }
+        })
+        .collect();
 
     let mut module_info = collect_insights.then_some(IndexMap::new());
 
@@ -680,17 +692,12 @@ fn configure_build(
 
         let mut src_tagfile = None;
 
-        if let Some(download) = module.download.as_ref() {
-            // This module is downloading, so store it's download directory in
-            // `download_dirs`. Dependees can then, if their srcdir is the same
-            // or prefixed by it, mark their sources as being created by the tagfile.
-            // This prevents ninja complaining about missing files.
-            // TODO: catch download directory clash here
-            download_dirs.insert(srcdir, download.tagfile(srcdir));
-        } else {
+        if module.download.is_none() {
             // this module is not downloading itself, so look up it's srcdir in
-            // the so-far stored `download_dirs`. Any dependency of this module
-            // would have stored it's srcdir there.
+            // `download_dirs`. If it is the same as or prefixed by the download
+            // directory of a module of this build, its sources are marked as being
+            // created by that module's tagfile.
+            // This prevents ninja complaining about missing files.
             let srcdir = Utf8PathBuf::from(
                 nested_env::expand_eval(srcdir, &flattened_env, IfMissing::Ignore)
                     .with_context(|| format!("module \"{}\": expanding srcdir", module.name))?,
